@@ -93,6 +93,28 @@ func runC20(c *Ctx, r *Rec) {
 						}
 						return true
 					})
+					// the decision between key and value must not depend on the VALUE of what was seen so far
+					valueDep := ""
+					ast.Inspect(a.cc, func(y ast.Node) bool {
+						is, ok := y.(*ast.IfStmt)
+						if !ok {
+							return true
+						}
+						ast.Inspect(is.Cond, func(z ast.Node) bool {
+							if id, ok := z.(*ast.Ident); ok {
+								if v, ok := info.Uses[id].(*types.Var); ok {
+									if tp, ok := v.Type().(*types.TypeParam); ok && (tp == a.tp || tp == b.tp) {
+										valueDep = fmt.Sprintf("the %s arm decides between key and value by looking at the value of %s (at %s): an argument equal to the zero value is then mistaken for 'not seen yet' (Association[int,int](0, 7) gets key 7)", a.tp.Obj().Name(), v.Name(), c.pos(is.Cond.Pos()))
+									}
+								}
+							}
+							return true
+						})
+						return true
+					})
+					if valueDep != "" {
+						r.fail("D1-coinciding-type-parameters", construct+"/value-dependence", c.pos(a.cc.Pos()), valueDep)
+					}
 					r.check(tests, "D1-coinciding-type-parameters", construct, c.pos(a.cc.Pos()),
 						fmt.Sprintf("the %s arm itself tests the argument against %s, so identical instantiations still route the second argument", a.tp.Obj().Name(), b.tp.Obj().Name()),
 						fmt.Sprintf("case %s precedes case %s and nothing separates the two type parameters: when both are instantiated with the same type every argument matches case %s and case %s is dead (Association[string,string](\"k\", \"v\") gets key \"v\" and an empty value); the first arm must itself test for %s", a.tp.Obj().Name(), b.tp.Obj().Name(), a.tp.Obj().Name(), b.tp.Obj().Name(), b.tp.Obj().Name()))
